@@ -18,7 +18,9 @@ term, or raises).  Two small interpreters over the `ast` do the work:
         constructor position: lo, hi); `apply` is then translated like a unary step with the atoms `lo.isSome` /
         `hi.isSome` for `<attr> is [not] None`; a bound is a float only where it is known not to be None
         (`Extracted.Formula.unClipper lo hi val`, which IS the model's `clipVal`).
-      - `FormulaEvaluator.apply`: from the last `<x> = <stack>.pop()` on, the returned `Sample`'s value is either
+      - `FormulaEvaluator.apply`: after the loop that applies the steps, `len(<stack>)` is only compared with 1, every
+        other size raises, `<stack>.pop()` (anywhere: a local, an argument of a helper) is the result `x`; the
+        returned `Sample`'s value (positional or keyword) is either
         `<create>(x)` or None; the decision over `isnan / isinf / isfinite (x)`, tabulated for the three classes
         nan | inf | finite, is `resultIsNone`.
   * `Pe` — partial evaluation with concrete values and `Unknown`, forking on unknown tests.  Used for
@@ -698,9 +700,34 @@ class FinalSx(Sx):
     def binop(self, op, a, b, st, k, src):
         self.bad(f"arithmetic on the result: {ast.unparse(src)!r}")
 
+    def call(self, e: ast.Call, st: St, k):
+        f = e.func
+        if isinstance(f, ast.Attribute) and isinstance(f.value, ast.Name) and st.env.get(f.value.id, (None,))[0] == "resstack":
+            if f.attr == "pop" and not e.keywords and (not e.args or ast.unparse(e.args[0]) in ("-1", "0")):
+                if ("LEN1", True) not in st.facts:
+                    self.bad("the result is popped where the stack size is not known to be 1")
+                if st.npop:
+                    self.bad("the stack is popped twice")
+                return k(("f", "res"), st.but(npop=1))
+            self.bad(f"stack operation {ast.unparse(e)!r}")
+        if isinstance(f, ast.Name) and f.id == "len" and "len" not in st.env and len(e.args) == 1 and not e.keywords \
+                and isinstance(e.args[0], ast.Name) and st.env.get(e.args[0].id, (None,))[0] == "resstack":
+            if st.npop:
+                self.bad("the stack size is read after the pop")
+            return k(("len",), st)
+        return super().call(e, st, k)
+
+    def exec(self, stmts, st, k_next, k_ret):
+        if stmts and isinstance(stmts[0], ast.Raise):
+            return ("ret", "raise")
+        return super().exec(stmts, st, k_next, k_ret)
+
     def compare(self, op, a, b, st, kt, kf, src):
         if op in (ast.Is, ast.IsNot):
             return super().compare(op, a, b, st, kt, kf, src)
+        one = ("f", self.lit(1))
+        if op in (ast.Eq, ast.NotEq) and sorted([a, b]) == sorted([("len",), one]):
+            return self.mk_if("LEN1", st, *((kt, kf) if op is ast.Eq else (kf, kt)))
         self.bad(f"comparison {ast.unparse(src)!r}")
 
     def truth(self, v, st, kt, kf, src):
@@ -731,29 +758,29 @@ def _at_class(node, cls: str) -> str:
 
 
 def final_test(evaluator_src: str) -> str:
+    """What `FormulaEvaluator.apply` does once the steps have run (`for <step> in ...: <step>.apply(<stack>)`): the
+    statements after that loop are executed symbolically (helpers inlined) with the evaluation stack as an abstract
+    value: `len(<stack>)` may only be compared with 1 (atom LEN1), `<stack>.pop()` is the result `res` and is allowed
+    once, on a path where the length is known to be 1.  Every path with length != 1 must raise (that, and the loop, are
+    modelled by hand in `Shunting.run`); for length 1 the answer is a `Sample` whose value is None or `<create>(res)`."""
     mod = Module(evaluator_src)
     m = mod.method("FormulaEvaluator", "apply")
     if m is None or not isinstance(m[0], ast.AsyncFunctionDef):
         raise Unsupported("FormulaEvaluator.apply not found")
     body = _strip_doc(m[0].body)
-    # the evaluation stack = what is handed to `<step>.apply(...)`
-    stacks = {ast.unparse(n.args[0]) for n in ast.walk(m[0]) if isinstance(n, ast.Call) and isinstance(n.func, ast.Attribute)
-              and n.func.attr == "apply" and len(n.args) == 1}
+
+    def apply_calls(node) -> set[str]:
+        return {ast.unparse(n.args[0]) for n in ast.walk(node) if isinstance(n, ast.Call) and isinstance(n.func, ast.Attribute)
+                and n.func.attr == "apply" and len(n.args) == 1 and not n.keywords and isinstance(n.args[0], ast.Name)}
+
+    stacks = apply_calls(m[0])
     if len(stacks) != 1:
-        raise Unsupported("FormulaEvaluator.apply: no unique evaluation stack (`step.apply(<stack>)`)")
+        raise Unsupported("FormulaEvaluator.apply: no unique evaluation stack (`<step>.apply(<stack>)`)")
     stack = stacks.pop()
-    idx = res = None
-    for k, st in enumerate(body):
-        if isinstance(st, (ast.Assign, ast.AnnAssign)) and st.value is not None and isinstance(st.value, ast.Call) \
-                and ast.unparse(st.value.func) == f"{stack}.pop" and not st.value.args:
-            tgt = st.targets[0] if isinstance(st, ast.Assign) else st.target
-            if isinstance(tgt, ast.Name):
-                idx, res = k, tgt.id
-    if idx is None:
-        raise Unsupported("FormulaEvaluator.apply: no `<result> = <stack>.pop()` at the top level")
-    for st in body[idx + 1:]:
-        if any(isinstance(n, ast.Name) and n.id == stack.split(".")[-1] for n in ast.walk(st)):
-            raise Unsupported("FormulaEvaluator.apply: the stack is used after the result was popped")
+    loops = [k for k, st in enumerate(body) if isinstance(st, ast.For) and apply_calls(st)]
+    if len(loops) != 1 or any(apply_calls(st) for k, st in enumerate(body) if k != loops[0]):
+        raise Unsupported("FormulaEvaluator.apply: the loop applying the steps is not a top-level `for`")
+    idx = loops[0]
     sx = FinalSx(mod, "FormulaEvaluator", "FormulaEvaluator.apply")
 
     def ret(v, _st):
@@ -764,10 +791,18 @@ def final_test(evaluator_src: str) -> str:
     def fall(_st):
         sx.bad("a path without return")
 
-    tree = sx.exec(body[idx + 1:], St({m[0].args.args[0].arg: ("self",), res: ("f", "res")}), fall, ret)
+    tree = sx.exec(body[idx + 1:], St({m[0].args.args[0].arg: ("self",), stack: ("resstack",)}), fall, ret)
+    if "LEN1" not in _atoms(tree):
+        raise Unsupported("FormulaEvaluator.apply: the size of the evaluation stack is not tested against 1")
+    if _restrict(tree, "LEN1", False) != ("ret", "raise"):
+        raise Unsupported("FormulaEvaluator.apply: a stack of size != 1 does not always raise")
+    tree = _restrict(tree, "LEN1", True)
+    vals = {c: _at_class(tree, c) for c in _CLASSES}
+    if any(v not in ("true", "false") for v in vals.values()):
+        raise Unsupported(f"FormulaEvaluator.apply: outcomes {vals}")
     return ("/-- The final test of `FormulaEvaluator.apply`: is the result replaced by `None`? -/\n"
-            f"def Extracted.Formula.resultIsNone (res : FloatClass) : Bool := (if (PyF.isnanC res) then {_at_class(tree, 'nan')} "
-            f"else (if (PyF.isinfC res) then {_at_class(tree, 'inf')} else {_at_class(tree, 'finite')}))\n")
+            f"def Extracted.Formula.resultIsNone (res : FloatClass) : Bool := (if (PyF.isnanC res) then {vals['nan']} "
+            f"else (if (PyF.isinfC res) then {vals['inf']} else {vals['finite']}))\n")
 
 
 # ================================================================ Pe: partial evaluation with Unknown
